@@ -502,6 +502,17 @@ func (i *interpreter) runPath(hf *ssa.Function, item WorkItem, ec ExploreConfig)
 			case targetPanic:
 				// an uncaught panic of the target program is a property violation
 				msg := "uncaught panic: " + panicString(r)
+				// an error (or Stringer) value: show its text
+				if iv, ok := r.v.(iface); ok && iv.t != nil {
+					if _, isStr := iv.v.(string); !isStr {
+						func() {
+							defer func() { recover() }()
+							if s, ok := i.methodString(nil, iv, "Error", "String"); ok {
+								msg = "uncaught panic: " + toString(s)
+							}
+						}()
+					}
+				}
 				func() {
 					defer func() {
 						if rr := recover(); rr != nil {
